@@ -1,4 +1,5 @@
 import GettsimVerif.Driver
+import GettsimVerif.DriverLang
 /- Dispatch of the line protocol to the executable models. -/
 open Lean GV
 
@@ -30,6 +31,7 @@ structure St where
   copied : List String := []
   groups : List String := []
   reg : List Params.FnEntry := []
+  envs : List (String × Lang.Val) := []     -- named parameter trees for `run_fun`
 
 def strs (j : Json) (k : String) : Except String (List String) := do (← jArr (← field j k)).mapM jStr
 
@@ -57,6 +59,28 @@ def statefulOp (st : St) (op : String) (j : Json) : Except String (Option (St ×
   | "group" =>
     let r := Params.loadGroup st.copied st.raw 200 (← int j "date") (← str j "group") none
     pure (some (st, out (fun kvs => oY (.dict kvs)) r))
+  | "set_trees" =>
+    let kvs ← (← jArr (← field j "trees")).mapM fun kv => match kv with
+      | .arr #[.str n, y] => do pure (n, Lang.Val.tree (← jY y))
+      | _ => throw "bad tree entry"
+    pure (some ({ st with envs := kvs }, Json.mkObj [("ok", .str "stored")]))
+  | "run_rule" =>
+    -- {"fun": F, "fixed": [[argname, treename]], "rows": [[vals for the remaining args in order]]}
+    let f ← jFun (← field j "fun")
+    let fixed ← (← jArr (← field j "fixed")).mapM fun kv => match kv with
+      | .arr #[.str a, .str t] => match st.envs.find? (·.1 = t) with
+        | some (_, v) => pure (a, v)
+        | none => throw s!"unknown tree {t}"
+      | _ => throw "bad fixed entry"
+    let free := f.args.filter fun a => !(fixed.any (·.1 = a))
+    let rows ← (← jArr (← field j "rows")).mapM fun r => do (← jArr r).mapM jVal
+    let res := rows.map fun vals =>
+      let env : List (String × Lang.Val) := free.zip vals ++ fixed
+      let args := f.args.map fun a => (env.find? (·.1 = a)).map (·.2) |>.getD Lang.Val.none
+      match Lang.runFun f args with
+      | .ok v => Json.mkObj [("ok", oVal v)]
+      | .error e => Json.mkObj [("err", .str (toString e))]
+    pure (some (st, .arr res.toArray))
   | "functions" =>
     let fs := Params.functionsFor st.reg (← int j "date")
     pure (some (st, Json.mkObj [("ok", .arr (fs.map fun (n, e) =>
@@ -115,6 +139,8 @@ def dispatch (j : Json) : Except String Json := do
   let op ← str j "op"
   match op with
   | "pw_eval" => opPwEval j
+  | "transform" => opTransform j
+  | "run_fun" => opRunFun j
   | "round" => opRound j
   | "conv" => do
     let u ← unitOf (← str j "u"); let v ← unitOf (← str j "v")
